@@ -46,6 +46,7 @@ class BtRun:
         self.sc = sc
         self.trace = Trace()
         self.events: Dict[int, Tuple[int, float]] = {}      # eid -> (source index, when_s)
+        self.src_events: Dict[int, List[int]] = {}           # source index -> event ids it must deliver
         self.pushed_by: Dict[int, int] = {}                 # eid -> seq at which it was pushed (derived events)
         self.jobs: Dict[int, Dict[str, Any]] = {}           # jid -> {when, sched_seq, sched_now, by}
         self.subs: Dict[int, List[int]] = collections.defaultdict(list)   # source index -> handler ids in order
@@ -77,6 +78,7 @@ class BtRun:
         self.Ev = Ev
         eid = 0
         self.sources = []
+        lists: List[list] = []
         nsrc = len(sc["sources"])
         for si, src in enumerate(sc["sources"]):
             evs = []
@@ -85,6 +87,12 @@ class BtRun:
                 tzs = sc.get("tz_minutes", [0])
                 evs.append(Ev(T(t, tzs[eid % len(tzs)]), eid))
                 self.events[eid] = (si, t)
+            self.src_events[si] = [e.eid for e in evs]
+            lists.append(evs)
+            if src.get("alias_of") is not None and src["alias_of"] < si:
+                # a second source built from the *same list object* as an earlier one: each must deliver all of it
+                evs = lists[src["alias_of"]]
+                self.src_events[si] = list(self.src_events[src["alias_of"]])
             if src.get("producer"):
                 self.sources.append(event.FifoQueueEventSource(producer=event.Producer(), events=evs))
             else:
@@ -158,6 +166,14 @@ class BtRun:
             tr.add("end", "job", jid, None, when, run._now())
             if spec.get("fail"):
                 raise RuntimeError(f"job {jid} fails")
+        if spec.get("plain"):
+            def plain_job():
+                if spec.get("sync_fail"):
+                    run.trace.add("start", "job", jid, None, when, run._now())
+                    run.trace.add("end", "job", jid, None, when, run._now())
+                    raise RuntimeError(f"job {jid} fails while being called")
+                return job()
+            return plain_job
         return job
 
     def _mk_handler(self, sub: Dict[str, Any]):
@@ -185,6 +201,7 @@ class BtRun:
                         run.next_eid += 1
                         ne = run.Ev(T(w), run.next_eid)
                         run.events[ne.eid] = (len(run.sources) + push["to"], w)
+                        run.src_events.setdefault(len(run.sources) + push["to"], []).append(ne.eid)
                         run.pushed_by[ne.eid] = tr.seq
                         run.derived[push["to"]].push(ne)
             for sj in sub.get("schedule", []):
@@ -193,6 +210,21 @@ class BtRun:
             tr.add("end", kind, hid, eid, S(e.when), run._now())
             if n in sub.get("fail_on", []):
                 raise RuntimeError(f"handler {hid} fails")
+        if sub.get("plain"):
+            # a plain callable returning an awaitable; on the scripted invocations it raises *before* returning it
+            sync_count = [0]
+
+            def plain_handler(e):
+                k = sync_count[0]
+                sync_count[0] += 1
+                if k in sub.get("sync_fail_on", []):
+                    count[0] += 1
+                    eid = getattr(e, "eid", None)
+                    run.trace.add("start", kind, hid, eid, S(e.when), run._now())
+                    run.trace.add("end", kind, hid, eid, S(e.when), run._now())
+                    raise RuntimeError(f"handler {hid} fails while being called")
+                return handler(e)
+            return plain_handler
         return handler
 
     def run(self):
@@ -252,19 +284,29 @@ def check_c12(run: BtRun) -> List[Tuple[str, str]]:
         out.append(("run_did_not_return", f"dispatcher.run() {run.outcome}"))
     starts, first_start, last_end, by_event, _ = index_trace(run)
     # (1) exactly once per (event, subscribed handler) and per (event, sniffer)
-    for eid, (si, when) in run.events.items():
+    sniff_expected: Dict[int, int] = collections.Counter()
+    for si, eids in run.src_events.items():
         if not run.subs.get(si):
             continue   # a source nobody subscribed to is unknown to the dispatcher
-        for kind, ids in (("h", run.subs.get(si, [])), ("pre", run.pre), ("post", run.post)):
-            for hid in ids:
-                n = starts.get((kind, hid, eid), 0)
+        for eid in eids:
+            sniff_expected[eid] += 1
+            when = run.events[eid][1]
+            for hid in run.subs.get(si, []):
+                n = starts.get(("h", hid, eid), 0)
                 if n != 1:
                     out.append(("not_exactly_once", f"event {eid} (source {si}, t={when}) started {n} times in "
-                                                    f"{kind} handler {hid}"))
+                                                    f"h handler {hid}"))
+    for eid, want in sniff_expected.items():
+        for kind, ids in (("pre", run.pre), ("post", run.post)):
+            for hid in ids:
+                n = starts.get((kind, hid, eid), 0)
+                if n != want:
+                    out.append(("not_exactly_once", f"event {eid} (t={run.events[eid][1]}) started {n} times in {kind} "
+                                                    f"handler {hid}, expected {want}"))
     for (kind, hid, eid), n in starts.items():
         if eid not in run.events:
             out.append(("unknown_event_delivered", f"handler {hid} received unknown event {eid}"))
-        elif kind == "h" and hid not in run.subs.get(run.events[eid][0], []):
+        elif kind == "h" and not any(hid in run.subs.get(si2, []) for si2, lst in run.src_events.items() if eid in lst):
             out.append(("delivered_to_unsubscribed_handler", f"event {eid} of source {run.events[eid][0]} reached handler {hid}"))
     # (2) global time order
     evs = sorted(first_start, key=lambda e: first_start[e])
@@ -298,6 +340,8 @@ def check_c12(run: BtRun) -> List[Tuple[str, str]]:
     for eid, rows in by_event.items():
         if eid not in run.events:
             continue
+        if sniff_expected.get(eid, 1) > 1:
+            continue   # the same event object travels through two sources: stages of the two deliveries interleave
         pre_end = max([r[0] for r in rows if r[2] == "pre" and r[1] == "end"], default=0)
         h_starts = [r for r in rows if r[2] == "h" and r[1] == "start"]
         h_end = max([r[0] for r in rows if r[2] == "h" and r[1] == "end"], default=0)
@@ -310,6 +354,8 @@ def check_c12(run: BtRun) -> List[Tuple[str, str]]:
                                                   f"handlers finished"))
         si = run.events[eid][0]
         order = [r[3] for r in h_starts]
+        if sniff_expected.get(eid, 1) > 1:
+            continue   # the same event object travels through two sources: stages of the two deliveries interleave
         if order != run.subs.get(si, []) and sorted(order) == sorted(run.subs.get(si, [])):
             out.append(("subscription_order", f"event {eid}: handlers started as {order}, subscribed as {run.subs.get(si)}"))
     # (4) clock
